@@ -23,12 +23,12 @@ CHECKS = {
          "2/C11"),
  "C14": ("model_checking",
          "explicit-state BFS over call histories on real Crystal objects to closure of the reachable canonical state space; invariant = agreement with a freshly built crystal on every transition",
-         "Every history over 13 fixed-argument queries, both trigonal switches and deepcopy, on 4 structures (generated R-3 water in H and R axes, the same loaded from CIF text, bundled R3c example): the search runs until no new canonical state appears (digest of vars(obj) incl. all memo attributes), so histories of every length are covered, not just length 4; each of the ~2800 transitions is executed on the real object and compared with a fresh crystal, repeated, and checked not to modify the public state.",
+         "Every history over 14 fixed-argument queries, both trigonal switches and deepcopy, on 5 structures (generated R-3 water in H and R axes, the same loaded from CIF text, NH3-on-axis + water, bundled R3c example): the search runs until no new canonical state appears (digest of vars(obj) incl. all memo attributes), so histories of every length are covered, not just length 4; each of the ~3700 transitions is executed on the real object and compared with a fresh crystal, repeated, and checked not to modify the public state; a second, non-deduplicated pass (every prefix of length <= 2 x every final operation) re-digests every answer handed out earlier (aliasing); a TLA+ model of the memo protocol is explored by TLC and every edge of its state graph is replayed on real crystals (abstraction of the real state = model successor).",
          "Digest soundness assumes methods only read state reachable from vars(obj); floats are rounded to 1e-9 in the digest (never in the oracle); queries are always issued with the same arguments, as the property stipulates.",
          "2/C14"),
  "C04": ("exploration",
          "bounded-exhaustive enumeration of rigid-molecule packings (setting x Z' kind x centre grid x orientation) against an exact image model with a reference-decided precondition filter",
-         "Continuous quantifier: the claim is bounded-exhaustive over a finite lattice of packings - every first-listed setting plus 40 further numbers in all their settings (thorough: all 530), molecules {H2O, CO, CO2, CH4} incl. index orders that force the bond walk from higher to lower indices, Z' in {1, 2 equal, 2 different}, centres straddling 0..3 cell faces: partition, lattice-translate, internal geometry, centre of mass, count, coincidence with the exact images, unique-molecule cover, labelling and periodic bond graph with cell offsets.",
+         "Continuous quantifier: the claim is bounded-exhaustive over a finite lattice of packings - every first-listed setting plus 40 further numbers in all their settings (thorough: all 530), molecules {H2O, CO, CO2, CH4} incl. index orders that force the bond walk from higher to lower indices, Z' in {1, 2 equal, 2 different}, centres straddling 0..3 cell faces: partition, lattice-translate, internal geometry, centre of mass, count, coincidence with the exact images, unique-molecule cover, labelling and periodic bond graph with cell offsets; all orders of default / covalent_radii-overridden analyses (hidden module state).",
          "Cases violating the property's precondition (contacts < bonding threshold + 0.5 A, special positions) are skipped and counted; covalent radii and masses read from the library table as data.",
          "2/C04"),
  "C13": ("model_checking",
@@ -58,17 +58,17 @@ CHECKS = {
          "2/C15"),
  "C16": ("model_checking",
          "bounded enumeration of write->read chains over atom counts x element lists x coordinate alphabets x bonded/unbonded x routes, XYZ spelling enumeration for all 103 symbols, multi-record SDF; SDF text judged by an independent fixed-column V2000 reader",
-         "Both formats x atom counts {1,2,3,10,99,100,101,200} x element lists cycling through all 103 elements x 6 coordinate kinds (generic, negative, zero, +-9999.9999 field limit, below SDF precision, 12 digits) x bonded/unbonded x string/file routes; every symbol in 3 letter cases x 4 separator styles through the XYZ reader; 1-3 concatenated SDF records from the writer and hand-built by the column reference; each SDF text must satisfy the CTfile V2000 columns.",
+         "Both formats x atom counts {1,2,3,10,99,100,101,200} x element lists cycling through all 103 elements x 6 coordinate kinds (generic, negative, zero, +-9999.9999 field limit, below SDF precision, 12 digits) x bonded/unbonded x string/file routes; every symbol in 3 letter cases x 4 separator styles through the XYZ reader; 1-3 concatenated SDF records from the writer and hand-built by the column reference; each SDF text must satisfy the CTfile V2000 columns; molecules read from xyz/sdf (with and without kept source text) and moved before being written.",
          "Precision XYZ 5e-13 / SDF 5e-5; molecules keep within the 3-digit atom/bond counts of V2000.",
          "2/C16"),
  "C12": ("exploration",
          "complete enumeration of a lattice of cells (lengths^3 x angle grid, filtered to valid parallelepipeds) through both construction routes and all named constructors against textbook lattice geometry",
-         "Continuous quantifier; bounded-exhaustive over lengths {1,7.3,100}^3 (thorough {1,2.5,7.3,31.7,100}^3) x all valid angle triples on a 10 (5) degree grid in [20,160]^3 (42k / 1.5M cells), degrees and radians, vector route incl. 26 rotated frames and left-handed input, seven named constructors + from_unique_parameters: inverse, coordinate round trip, lengths/angles, volume=|det|, reciprocal lengths/angles/vectors, agreement of the two routes, all to 1e-9 relative.",
+         "Continuous quantifier; bounded-exhaustive over lengths {1,7.3,100}^3 (thorough {1,2.5,7.3,31.7,100}^3) x all valid angle triples on a 10 (5) degree grid in [20,160]^3 (42k / 1.5M cells), degrees and radians, vector route incl. 26 rotated frames and left-handed input, seven named constructors + from_unique_parameters: inverse, coordinate round trip, lengths/angles, volume=|det|, reciprocal lengths/angles/vectors, agreement of the two routes, all to 1e-9 relative; all sequences of <= 2 (3) re-specifications of one object through set_lengths_and_angles / set_vectors.",
          "Cells flatter than sqrt(det G)/abc = 0.02 are excluded as degenerate; angle tolerances scaled by 1/sin.",
          "2/C12"),
  "C18": ("exploration",
          "complete enumeration of small lattice point sets (all triples/quadruples of {-1,0,1}^3, incl. every collinear/planar/centrosymmetric degeneracy) x relating transformations x reflection x noise, against Horn's quaternion optimum",
-         "Continuous quantifier; bounded-exhaustive over all 2,925 triples and 17,550 quadruples (quick: every third) of the 27-point lattice + prefixes n=5..50 of two lattice enumerations, x 28 rotations x reflection x 3 noise patterns: orthogonality, det=+1, RMSD not above the independent optimum + 1e-8, congruent sets superposed, mirror images never superposed improperly, rmsd_points/reorient_points consistent; Dimer.transform_ab reproduces the relating rotation.",
+         "Continuous quantifier; bounded-exhaustive over all 2,925 triples and 17,550 quadruples (quick: every third) of the 27-point lattice + prefixes n=5..50 of two lattice enumerations, x 28 rotations x reflection x 3 noise patterns: orthogonality, det=+1, RMSD not above the independent optimum + 1e-8, congruent sets superposed, mirror images never superposed improperly, rmsd_points/reorient_points consistent; Dimer.transform_ab reproduces the relating rotation; matrices and Dimers handed out earlier stay unchanged by later calls.",
          "Rotation about the origin (the routine does not centre); Horn's method is the trusted optimum.",
          "2/C18"),
  "C19": ("exploration",
@@ -78,12 +78,12 @@ CHECKS = {
          "2/C19"),
  "C20": ("model_checking",
          "complete enumeration of the bounded stratification domain (dims 1..1000 x m<=12, all elementary boxes) and of a boundary-oriented family of seed windows; bit-exact comparison batch = single = prefix = direct Gray-code reference",
-         "Stratification and (0,m,2)-net: finite domain enumerated completely in both tiers; batch/single/prefix agreement on 4,300+ windows (all [s,s+k] with s<=64,k<=64; +-2 around every power of two to 2^20; 10^6) x dims {1,2,3,10,100,1000} (Sobol, bit-exact) and 14 (thorough 64) Korobov dimensions; front-end dispatch; determinism of repeated calls; direct non-recurrent evaluation from hard-coded Joe-Kuo rows for dims 1..13 x 4096 seeds.",
+         "Stratification and (0,m,2)-net: finite domain enumerated completely in both tiers; batch/single/prefix agreement on 4,300+ windows (all [s,s+k] with s<=64,k<=64; +-2 around every power of two to 2^20; 10^6) x dims {1,2,3,10,100,1000} (Sobol, bit-exact) and 14 (thorough 64) Korobov dimensions; front-end dispatch incl. all call histories of length <= 2 (3) over 8 colliding calls from freshly reloaded module state; determinism of repeated calls; direct non-recurrent evaluation from hard-coded Joe-Kuo rows for dims 1..13 x 4096 seeds.",
          "Compiled kernels exercised as built (no Cython offline); the batch/single half is an exhaustive window family under a work budget, not all (s,k) up to 10^6.",
          "2/C20"),
  "C07": ("exploration",
          "complete enumeration of the transform's basis (every (l,m) channel, both phases, both layouts) for every L up to a bound and boundary channels for all L in 0..64, against scipy's spherical harmonics; linearity lifts basis coverage to all coefficient vectors",
-         "Configurations: every L in 0..64 (each selects its own grid). Inputs: for L <= 16 (thorough 32) every unit vector e_(l,m) and i*e_(l,m) of the complex and real layouts through analysis and synthesis, completion and complex-vs-real agreement; above that the channels l in {0,1,L/2,L-1,L} x m in {-l,-1,0,1,l} and two dense vectors; pure-Python paths and point-wise evaluation on every basis vector for L <= 8 (12); linearity, Parseval by an independent quadrature, power spectrum; grid-size facts.",
+         "Configurations: every L in 0..64 (each selects its own grid). Inputs: for L <= 16 (thorough 32) every unit vector e_(l,m) and i*e_(l,m) of the complex and real layouts through analysis and synthesis, completion and complex-vs-real agreement; above that the channels l in {0,1,L/2,L-1,L} x m in {-l,-1,0,1,l} and two dense vectors; pure-Python paths and point-wise evaluation on every basis vector for L <= 8 (12); linearity, Parseval by an independent quadrature, power spectrum; grid-size facts; all call sequences of length <= 3 over 11 methods on one reused SHT object (scratch arrays, returned arrays).",
          "Tolerance 1e-10*(L+1); scipy.special.sph_harm_y is the trusted definition of the orthonormal Condon-Shortley harmonics; compiled kernels exercised as built.",
          "2/C07"),
  "C08": ("model_checking",
